@@ -118,7 +118,7 @@ func (w *worker) server(opt int, route string) *srvh.Server {
 	s := srvh.New(srvh.Opts{})
 	if route == "static" {
 		// a short cache life keeps the number of open files bounded; within one case (microseconds) the cache is still warm
-		fs := &app.FS{Root: w.root, AcceptByteRange: opt&1 != 0, Compress: opt&2 != 0, GenerateIndexPages: opt&8 != 0, CacheDuration: 100 * time.Millisecond}
+		fs := &app.FS{Root: w.root, AcceptByteRange: opt&1 != 0, Compress: opt&2 != 0, GenerateIndexPages: opt&8 != 0, CacheDuration: 40 * time.Millisecond}
 		if opt&4 != 0 {
 			fs.IndexNames = []string{"index.html"}
 		}
@@ -547,6 +547,9 @@ func run(c *mc.Ctx) {
 		default:
 			w = newWorker(int(atomic.AddInt64(&nextID, 1)))
 		}
+		if i%128 == 0 {
+			fdThrottle()
+		}
 		w.exec(c, cases[i])
 		atomic.AddInt64(ex, 1)
 		atomic.AddInt64(tr, int64(len(cases[i].Reqs)))
@@ -557,6 +560,19 @@ func run(c *mc.Ctx) {
 	})
 	if baseDir != "" {
 		os.RemoveAll(baseDir) //nolint:errcheck
+	}
+}
+
+// fdThrottle keeps the number of open descriptors bounded: every case opens files under fresh names, and the file
+// handler keeps each open until its cache cleaner (period CacheDuration/2) has run. Waiting changes no verdict; without
+// it a fast machine can reach the descriptor limit, and an open() failure then shows as a 500 that no replay reproduces.
+func fdThrottle() {
+	for k := 0; k < 200; k++ {
+		ents, err := os.ReadDir("/proc/self/fd")
+		if err != nil || len(ents) < 6000 {
+			return
+		}
+		time.Sleep(20 * time.Millisecond)
 	}
 }
 
